@@ -236,6 +236,8 @@ class Gen:
         self.rng, self.tab, self.big = rng, tab, big
         self.tree = Tree(tab)
         self.script = []          # (command line, expectation dict or None)
+        self.reopened = False
+        self.last_named = []
         self.nname = 0
         self.nmark = 0
         self.stats = {"spellings": {}, "failures": {}, "kinds": set(), "deletes": 0, "targets": 0}
@@ -293,8 +295,7 @@ class Gen:
                 u, = self.at(n, "user %s" % nm, [(n, "UserDefinedData_t", nm, None)])
                 if depth < 2 and rng.random() < 0.5:
                     self.ctx_children(u, depth + 1)
-        if n.label in ("UserDefinedData_t", "DiscreteData_t", "IntegralData_t", "BCData_t", "GasModel_t", "RigidGridMotion_t",
-                       "ZoneIterativeData_t", "BaseIterativeData_t", "Periodic_t", "Area_t", "WallFunction_t") \
+        if n.label in ("UserDefinedData_t", "IntegralData_t", "BCData_t", "ConvergenceHistory_t") \
                 and n.label in self.tab.ctx.get("cgi_array_address", ()) and (n.label, "DataArray_t") in self.tab.arms:
             for _ in range(rng.choice([0, 1, 2])):
                 nm = self.name("arr")
@@ -349,9 +350,11 @@ class Gen:
                 fn_ = self.name("Fam")
                 f, = self.create("family %d %s" % (B, fn_), base, [(base, "Family_t", fn_, None)])
                 fams.append((f, fi + 1))
-            if rng.random() < 0.5:
+            has_biter = rng.random() < 0.5
+            if has_biter:
                 nm = self.name("BIter")
                 bi_, = self.create("biter %d %s" % (B, nm), base, [(base, "BaseIterativeData_t", nm, None)])
+                self.at(bi_, "timevalues", [(bi_, "DataArray_t", "TimeValues", None)])      # required for the file to be readable
                 self.ctx_children(bi_, 1)
             pz = []
             for pi in range(rng.choice([0, 1, 1, 2])):
@@ -362,6 +365,7 @@ class Gen:
                 g, = self.create("gravity %d" % B, base, [(base, "Gravity_t", "Gravity", None)])
                 self.ctx_children(g, 2)
             self.common_ctx(base, B)
+            self.has_biter = has_biter
             for z, zt, Z in zones:
                 self.build_zone(base, B, z, zt, Z, [zz for zz, _, _ in zones])
             for f, F in fams:
@@ -487,8 +491,10 @@ class Gen:
             for _ in range(rng.choice([0, 1, 1, 2] if self.big else [0, 0, 1])):
                 nm = self.name(stem)
                 d, = self.create("%s %d %d %s" % (cmd, B, Z, nm), z, [(z, label, nm, None)])
+                if cmd == "rigid":
+                    self.at(d, "origin", [(d, "DataArray_t", "OriginLocation", None)])    # required for the file to be readable
                 self.ctx_children(d, 2)
-        if rng.random() < 0.5:
+        if self.has_biter and rng.random() < 0.6:        # a ZoneIterativeData_t without BaseIterativeData_t is dropped on read
             nm = self.name("ZIter")
             zi, = self.create("ziter %d %d %s" % (B, Z, nm), z, [(z, "ZoneIterativeData_t", nm, None)])
             self.ctx_children(zi, 2)
@@ -539,7 +545,7 @@ class Gen:
                 fn_ = self.name("PFld")
                 self.create("pfield %d %d %d %s" % (B, P, ns, fn_), s, [(s, "DataArray_t", fn_, None)])
             self.ctx_children(s, 2)
-        if rng.random() < 0.5:
+        if self.has_biter and rng.random() < 0.6:
             nm = self.name("PIter")
             pi, = self.create("piter %d %d %s" % (B, P, nm), p, [(p, "ParticleIterativeData_t", nm, None)])
             self.ctx_children(pi, 2)
@@ -601,13 +607,29 @@ class Gen:
 
     def mixed_pairs(self, steps, kind):
         out = []
+        self.last_named = []
         for l, i, nm in steps:
             by_name = kind == "name" or (kind == "mixed" and self.rng.random() < 0.5)
             if by_name and nm not in ("end", "END"):
-                out.append("%s 0" % nm)
+                out.append("%s 0" % nm); self.last_named.append(nm)
             else:
                 out.append("%s %d" % (l, i))
         return " ".join(out)
+
+    UNNAMED = ("BCProperty_t", "WallFunction_t", "Area_t", "GridConnectivityProperty_t", "Periodic_t", "AverageInterface_t")
+
+    def known_key(self, n, named):
+        """canonical key of the known defect a by-name spelling of n's path runs into (notes/C11.md), if any"""
+        names = set(named)
+        x = n
+        while x.parent is not None:
+            if x.name in names:
+                if x.label == "IndexArray_t" and x.name == "PointRange":
+                    return "goto-by-name:BC_t:IndexRange_t"
+                if self.reopened and x.label in self.UNNAMED:
+                    return "goto-by-name-after-reopen:unnamed-single"
+            x = x.parent
+        return None
 
     def navigate(self, n, mode):
         """reach node n by a random spelling, then observe"""
@@ -619,11 +641,13 @@ class Gen:
         self.stats["spellings"][k] = self.stats["spellings"].get(k, 0) + 1
         self.stats["targets"] += 1
         if k in ("goto_idx", "goto_name", "goto_mixed"):
-            self.emit("goto %d %s" % (B, self.mixed_pairs(steps, k[5:])), kind="nav", ok=True, why=k)
+            line = "goto %d %s" % (B, self.mixed_pairs(steps, k[5:]))
+            self.emit(line, kind="nav", ok=True, why=k, known_key=self.known_key(n, self.last_named))
         elif k == "gopath_abs":
-            self.emit("gopath %s" % self.path_of(n.path_names()), kind="nav", ok=True, why=k)
+            self.emit("gopath %s" % self.path_of(n.path_names()), kind="nav", ok=True, why=k, known_key=self.known_key(n, n.path_names()))
         elif k.startswith("golist"):
-            self.emit("golist %d %d %s" % (B, len(steps), self.mixed_pairs(steps, k[7:])), kind="nav", ok=True, why=k)
+            line = "golist %d %d %s" % (B, len(steps), self.mixed_pairs(steps, k[7:]))
+            self.emit(line, kind="nav", ok=True, why=k, known_key=self.known_key(n, self.last_named))
         elif k == "where_replay":
             self.emit("goto %d %s" % (B, self.mixed_pairs(steps, "idx")), kind="nav", ok=True, why=k)
             self.emit("wherereplay", kind="nav", ok=True, why=k)
@@ -648,7 +672,7 @@ class Gen:
                     items.insert(rng.randint(0, len(items)), ". 0")
                 tail = self.mixed_pairs(down, rng.choice(["idx", "name", "mixed"]))
                 if len(items) + len(down) <= 20:
-                    self.emit("gorel %s %s" % (" ".join(items), tail), kind="nav", ok=True, why=k)
+                    self.emit("gorel %s %s" % (" ".join(items), tail), kind="nav", ok=True, why=k, known_key=self.known_key(n, self.last_named))
                 else:
                     self.emit("goto %d %s" % (B, self.mixed_pairs(steps, "idx")), kind="nav", ok=True, why="goto_idx")
             else:
@@ -662,7 +686,7 @@ class Gen:
                 for s in segs[1:]:
                     p += self.slashes() + s
                 if len(segs) <= 20:
-                    self.emit("gopath %s" % p, kind="nav", ok=True, why=k)
+                    self.emit("gopath %s" % p, kind="nav", ok=True, why=k, known_key=self.known_key(n, [nm for _, _, nm in down]))
                 else:
                     self.emit("goto %d %s" % (B, self.mixed_pairs(steps, "idx")), kind="nav", ok=True, why="goto_idx")
         self.observe(n, mode, k)
@@ -750,6 +774,18 @@ class Gen:
         else:
             self.observe_cleared(k)
 
+    def reopen(self):
+        self.reopened = True
+        self._reopen()
+
+    def _reopen(self):
+        """cgi_read_base populates zones and particle zones in strcmp order of their names (every other array keeps
+        the order of the file's child table = creation order)"""
+        for b in self.tree.root.kids:
+            zs = sorted([k for k in b.kids if k.label == "Zone_t"], key=lambda k: k.name.encode())
+            ps = sorted([k for k in b.kids if k.label == "ParticleZone_t"], key=lambda k: k.name.encode())
+            b.kids = zs + ps + [k for k in b.kids if k.label not in ("Zone_t", "ParticleZone_t")]
+
     def delete_some(self):
         """cg_delete_node of a random deletable child (modify mode); the position stays at the parent"""
         rng = self.rng
@@ -764,7 +800,10 @@ class Gen:
         x = rng.choice(cands)
         p = x.parent
         B, base, steps = self.tree.steps(p)
-        self.emit("goto %d %s" % (B, self.mixed_pairs(steps, rng.choice(["idx", "name"]))), kind="nav", ok=True, why="delete:start")
+        line = "goto %d %s" % (B, self.mixed_pairs(steps, rng.choice(["idx", "name"])))
+        if self.known_key(p, self.last_named):
+            line = "goto %d %s" % (B, self.mixed_pairs(steps, "idx"))
+        self.emit(line, kind="nav", ok=True, why="delete:start")
         self.emit("delete %s" % x.name, kind="delete", expect="d 0")
         self.tree.remove(x)
         self.stats["deletes"] += 1
@@ -776,7 +815,9 @@ class Gen:
         if sibs:
             s = rng.choice(sibs)
             lab, idx = self.tree.index_of(s)
-            self.emit("gorel %s" % (("%s %d" % (lab, idx)) if rng.random() < 0.5 else ("%s 0" % s.name)), kind="nav", ok=True, why="after_delete:gorel")
+            byname = rng.random() < 0.5
+            self.emit("gorel %s" % (("%s 0" % s.name) if byname else ("%s %d" % (lab, idx))), kind="nav", ok=True, why="after_delete:gorel",
+                      known_key=self.known_key(s, [s.name]) if byname else None)
             self.observe(s, "m", "after_delete")
 
 
@@ -803,6 +844,7 @@ def gen_scenario(rng, tab, big, fname):
             g.emit("@mirror", kind="mirror")
     g.emit("close", kind="create")
     g.emit("open r %s" % fname, kind="create")
+    g.reopen()
     g.emit("@mirror", kind="mirror")
     for i in range(nt):
         if rng.random() < 0.3:
@@ -811,6 +853,8 @@ def gen_scenario(rng, tab, big, fname):
             g.navigate(rng.choice(nav), "r")
     g.emit("close", kind="create")
     g.emit("open m %s" % fname, kind="create")
+    g.reopen()
+    g.emit("@mirror", kind="mirror")
     for i in range(nt):
         r = rng.random()
         if r < 0.2:
@@ -849,11 +893,11 @@ class Runner:
         return il, outcome, ml
 
 
-def judge(script, il, outcome, ml_by_cmd):
+def judge(script, il, outcome, ml_by_cmd, known=None):
     """oracle (independent of the model) + correspondence.  script: [(line, exp)] without placeholders for the impl.
     -> (failures, divergences); each a dict naming the command index"""
     fails, divs = [], []
-    prev_where = None
+    skip = False
     for i, (line, exp) in enumerate(script):
         got = il[i] if i < len(il) else None
         mod = ml_by_cmd.get(i)
@@ -870,6 +914,13 @@ def judge(script, il, outcome, ml_by_cmd):
                 break
         elif kind == "nav":
             st = int(got.split()[1]) if got.startswith("n ") else None
+            skip = False
+            if exp["ok"] is True and st != 0 and exp.get("known_key"):
+                # a listed defect: the observations that follow this navigation are void
+                if known is not None:
+                    known.setdefault(exp["known_key"], {"at": i, "cmd": line, "got": got})
+                skip = True
+                continue
             if exp["ok"] is True and st != 0:
                 fails.append({"at": i, "cmd": line, "what": "a valid spelling of an existing node was refused", "got": got, "why": exp["why"]})
             if exp["ok"] is False and st == 0:
@@ -878,6 +929,8 @@ def judge(script, il, outcome, ml_by_cmd):
                 divs.append({"at": i, "cmd": line, "model": mod, "impl": got})
             elif mod is not None and mod != got:
                 divs.append({"at": i, "cmd": line, "model": mod, "impl": got, "status_code_only": True})
+        elif skip and kind in ("where", "mark", "readmark", "where_any"):
+            continue
         elif kind == "where":
             if got != exp["expect"]:
                 fails.append({"at": i, "cmd": line, "what": "cg_where differs from the target's label/index path" if exp["expect"] != "w 1"
@@ -949,10 +1002,11 @@ def run_one(exe, g, backend, work):
             exp_line = "at %d" % t if t is not None else "at none"
             if ml[mi] != exp_line:
                 at_problems.append({"model_at": ml[mi], "expected": exp_line})
-    fails, divs = judge(impl_exp, il, outcome, by)
+    known = {}
+    fails, divs = judge(impl_exp, il, outcome, by, known)
     for a in at_problems[:3]:
         divs.append({"cmd": "at", "model": a["model_at"], "impl": a["expected"], "note": "model position vs generator's target"})
-    return fails, divs, impl, il, outcome
+    return fails, divs, impl, il, outcome, known
 
 
 def attach_mirrors(g):
@@ -1046,6 +1100,7 @@ def run(ck):
     found = []
     all_divs = []
     gen_problems = []
+    known_seen = {}
 
     def one(seed_rng, backend, j, label):
         fname = "c11_%s_%s_%d.cgns" % (label, backend, j)
@@ -1053,7 +1108,9 @@ def run(ck):
         if os.path.exists(p):
             os.unlink(p)
         g = gen_scenario(seed_rng, tab, big, fname)
-        fails, divs, impl, il, outcome = run_one(exe, g, backend, ck.work)
+        fails, divs, impl, il, outcome, known = run_one(exe, g, backend, ck.work)
+        for key, wit in known.items():
+            known_seen.setdefault(key, {"backend": backend, "script": impl[: wit["at"] + 1], "cmd": wit["cmd"], "got": wit["got"]})
         dist["scenarios"] += 1
         dist["commands"] += len(impl)
         dist["nodes"] += len(g.tree.nodes)
@@ -1118,8 +1175,10 @@ def run(ck):
                     break
             if found:
                 break
+    for key, wit in sorted(known_seen.items()):
+        ck.finding(key, {"oracle": "a by-name spelling of an existing node's path must reach it (as the label+index spelling does)",
+                         "witness": wit})
     for f in found[:3]:
-        key = None
         ck.violation({"oracle": ORACLE, "witness": f, "broken_obligations": broken, "rows_failing": new_bad,
                       "replay_hint": ".build/h/c11_nav < script (one command per line)"})
     if not found and (broken or all_divs or new_bad):
